@@ -7,6 +7,7 @@ import Driver.OpsTables
 import Driver.OpsFrame
 import Driver.OpsLocal
 import Driver.OpsFind
+import Driver.OpsDump
 /-
   bvp_lean — line-protocol driver: one operation per input line, one canonical
   result line per operation, computed by the *model*.  Each model area has its own
@@ -23,6 +24,7 @@ structure St where
   codec : CodecSt := {}
   tbl : TblSt := {}
   frame : FrameSt := {}
+  dump : DumpSt := {}
   lt : LtSt := {}
   find : FindSt := {}
 
@@ -52,6 +54,9 @@ def step (st : St) (line : String) : St × String :=
   | none =>
   match stepLocal st.tm st.lt toks with
   | some (t, l, o) => ({ st with tm := t, lt := l }, o)
+  | none =>
+  match stepDump st.tm st.codec st.dump toks with
+  | some (t, c, d, o) => ({ st with tm := t, codec := c, dump := d }, o)
   | none => (st, "bad-op")
 
 partial def loop (h : IO.FS.Stream) (out : IO.FS.Stream) (st : St) : IO Unit := do
